@@ -3,6 +3,7 @@ package main
 import (
 	"go/token"
 	"go/types"
+	"strconv"
 	"strings"
 
 	"golang.org/x/tools/go/ssa"
@@ -851,6 +852,22 @@ func (c *Ctx) c16Immutable() {
 	}
 	// Y4 who-may-list
 	lister := c.fn(scPkg, "listCompleteFilesByModTime")
+	// Y18: "returns the newest complete version": the newest one is chosen among the packages the listing hands back, so
+	// the listing must look at every name of the directory. Its loops run to the end of what was listed; the only other way
+	// out is an error (a package that vanished, a cancelled context): leaving a loop early with a success hands back a
+	// prefix in directory order, and Fetch unpacks the newest of that prefix, CleanEntry spares what was not listed.
+	c.rule("Y18", "the loops of listCompleteFilesByModTime run to the end of the listed names; the only other way out is an error exit (a prefix of the directory is never handed back as the whole listing)", 1)
+	if lister != nil && lister.Blocks != nil {
+		loops, bad := c.loopsRunToTheEnd(lister)
+		switch {
+		case loops == 0:
+			c.undecided("Y18", fname(lister)+"/every-package", c.pos(lister.Pos()), "no loop over the listed names found")
+		case bad != "":
+			c.violate("Y18", fname(lister)+"/every-package", bad, "a loop over the listed names can be left here before the end of the list without an error: the packages after this point are not candidates, so an older version is returned as the newest (and CleanEntry never sees them)")
+		default:
+			c.ok("Y18", fname(lister)+"/every-package", c.pos(lister.Pos()), strconv.Itoa(loops)+" loop(s) over the listed names run to the end (error exits aside)")
+		}
+	}
 	for _, f := range c.srcFuncs(scPkg) {
 		if f.Signature.Recv() == nil || !strings.Contains(f.Signature.Recv().Type().String(), "SharedImmutableCacheRepository") {
 			continue
